@@ -20,8 +20,8 @@ RULE = ("TLC enumerates every plain interval with end points k/4, k in -8..8 (15
         "contains/overlaps/intersection with all 153 intervals, + and - 17 shifts, end point assignment of 17 values, "
         "* 7 scalars (incl. 0), / 6 scalars, round(None, 0, 1, 2), inverted construction.  Each angle interval: "
         "membership of the 73 grid angles in -3pi..3pi (float; int 0; method and `in`), + and - 15 shifts (thorough: all 49), "
-        "contains(interval) and overlaps with a second interval at every offset 0..23 around the circle x 7 lengths "
-        "(thorough: all 24 lengths, both representations of the start), inverted construction.  Plus seeded random cases "
+        "contains(interval) with a second interval at every offset 0..23 around the circle x 7 lengths (thorough: all 24 "
+        "lengths, both representations of the start), overlaps for the lengths 0, 6, 13, 23 of those, inverted construction.  Plus seeded random cases "
         "(400 + 400; thorough 4000 + 4000): arbitrary floats / ints strictly inside grid cells, incl. values 1e-3..1e-12 "
         "next to end points, judged by their cell.  Re-bounding scenarios (spec actions SetStart / SetEnd): every plain "
         "interval x up to 11 target bounds, and every angle interval inside [-2pi, 2pi] whose length is one of the cfg's "
@@ -77,7 +77,7 @@ def cases(ctx):
     for c in cs:
         c["src"] = "tlc"
         if c["kind"] == "angle":                   # EITHER band sizes are computed by the spec per case; summed for the evidence
-            tot = {"angle_contains": len(c["ths"]), "angle_contains_interval": len(c["js"]), "angle_overlaps": len(c["js"])}
+            tot = {"angle_contains": len(c["ths"]), "angle_contains_interval": len(c["js"]), "angle_overlaps": len(c["ojs"])}
             for k, v in c.pop("either").items():
                 b = band.setdefault(k, {"either": 0, "total": 0})
                 b["either"] += v
@@ -436,6 +436,13 @@ def _angle(case, ev):
         b2 = dict(base, ja=ja, jlen=jl)
         ev.append(dict(b2, op="angle_contains_interval", res=_bool(lambda: mk().contains(mj())),
                        sig="angle_contains_interval/I:%s/J:%s" % (lc, "len<pi" if jl < 12 else "len>=pi")))
+    for ja, jl in case["ojs"]:
+        mj = lambda: AngleInterval(g(ja), g(ja + jl))
+        try:
+            mj()
+        except Exception:
+            continue
+        b2 = dict(base, ja=ja, jlen=jl)
         ev.append(dict(b2, op="angle_overlaps", res=_bool(lambda: mk().overlaps(mj())), sig="angle_overlaps/%s" % lc))
     if ln > 0:
         ev.append(dict(op="angle_construct", a=a + ln, b=a, sig="angle_construct_inverted",
